@@ -167,7 +167,9 @@ class Count(Factory, Container):
                 t = self.transform(numpy.array([weights]))
                 assert len(t.shape) == 1
                 assert t.shape[0] == 1
-                self.entries += float(t[0])
+                # every one of the shape[0] rows carries this weight; like fill, only a positive weight counts
+                if weights > 0.0:
+                    self.entries += float(t[0]) * shape[0]
 
         elif isinstance(weights, (int, float, numpy.number)):
             if self.transform == identity:
